@@ -239,14 +239,25 @@ func MonitorC01(evs []Ev, m ConnMeta, class func(string)) []Finding {
 				grantKind = "auto"
 			}
 		case "approve":
-			if !cancelled {
+			// an approval is acted upon by the connection while the request is pending (11) or while the
+			// pending state is being entered (6, 10); given earlier it only takes effect through the
+			// provider's answer when the hello phase is entered (q:paired), unless it was cancelled before
+			if !cancelled && (e.N == 11 || e.N == 6 || e.N == 10) {
 				granted = true
 				grantKind = "approve"
+			} else {
+				class(fmt.Sprintf("approve-outside-pending:state%d", e.N))
 			}
 		case "cancel":
 			if e.N == 11 || e.N == 8 {
 				cancelled = true
 				granted = false
+			} else if e.N < stHelloOk && grantKind != "auto" {
+				// cancelled before the trust decision of this connection was taken: whatever the user
+				// approved before is withdrawn (the hub marks the service untrusted)
+				granted = false
+				grantKind = "none"
+				class(fmt.Sprintf("cancel-before-decision:state%d", e.N))
 			}
 		case "state":
 			if needsTrust(e.N) {
